@@ -13,7 +13,7 @@ Proof. destruct r; cbn; [eauto|discriminate]. Qed.
 (* the part of the state the exactly-once argument is about *)
 Definition same_proj (s s' : ist) : Prop :=
   rel s' = rel s /\ nextseq s' = nextseq s /\ ilog s' = ilog s /\ commits s' = commits s /\ sent s' = sent s /\
-  pair_on s' = pair_on s /\ has_acct s' = has_acct s.
+  pair_on s' = pair_on s /\ chanid s' = chanid s.
 
 Lemma same_proj_refl s : same_proj s s.
 Proof. repeat split. Qed.
@@ -129,7 +129,7 @@ Section Recv.
     unfold memo_step, memo_untouched. intros H U k a.
     destruct (ip_memo p) as [| | |f v]; try (inversion H; subst; reflexivity); try discriminate.
     destruct (negb (has_acct s1 _)); [discriminate|]. destruct (_ <? _); [discriminate|].
-    destruct f; inversion H; subst. cbn [ibal with_log with_bal].
+    destruct f; inversion H; subst. cbn [ibal with_log with_bal with_acct].
     destruct U as [->|[U1 U2]].
     - rewrite !ladd_zero. reflexivity.
     - rewrite !ladd_other_holder by congruence. reflexivity.
@@ -151,7 +151,7 @@ Section Recv.
   Proof.
     unfold memo_step. destruct (ip_memo p) as [| | |f v]; cbn [written]; auto.
     destruct (negb (has_acct s1 _)); cbn [written]; auto. destruct (_ <? _); cbn [written]; auto.
-    destruct f; cbn [written ilog with_log with_bal]; intros Hin; apply in_app_or in Hin;
+    destruct f; cbn [written ilog with_log with_bal with_acct]; intros Hin; apply in_app_or in Hin;
       (destruct Hin as [Hin|[E|[]]]; [auto|inversion E; auto]).
   Qed.
 
@@ -183,7 +183,7 @@ Section Recv.
         unfold voucher_to_self in Hv. apply bind_ok in Hv. destruct Hv as (u1 & Hu1 & Hu2).
         unfold pay in *.
         repeat match goal with H : (if ?c then _ else _) = Ok _ |- _ => destruct c; [discriminate|]; inversion H; subst; clear H end.
-        cbn [ibal with_bal mint]. peel. unfold ACoin, AErc.
+        cbn [ibal with_bal with_acct mint]. peel. unfold ACoin, AErc.
         repeat match goal with |- context [?a =? ?b] => destruct (Z.eqb_spec a b) end; cbn [andb]; lia.
       + intros k a Hne. rewrite Hlog. cbn [ibal with_log].
         unfold convert_coin in Hcc. destruct (negb _); [discriminate|]. apply bind_ok in Hcc. destruct Hcc as (w1 & Hp & Hm).
@@ -191,7 +191,7 @@ Section Recv.
         unfold voucher_to_self in Hv. apply bind_ok in Hv. destruct Hv as (u1 & Hu1 & Hu2).
         unfold pay in *.
         repeat match goal with H : (if ?c then _ else _) = Ok _ |- _ => destruct c; [discriminate|]; inversion H; subst; clear H end.
-        cbn [ibal with_bal mint]. peel. unfold ACoin, AErc in *.
+        cbn [ibal with_bal with_acct mint]. peel. unfold ACoin, AErc in *.
         repeat match goal with |- context [?a =? ?b] => destruct (Z.eqb_spec a b) end;
           cbn [andb]; try lia; exfalso; apply Hne; congruence.
     - (* Alias t: no pair under the voucher's name *)
@@ -207,9 +207,9 @@ Section Recv.
       unfold pay in *.
       repeat match goal with H : (if ?c then _ else _) = Ok _ |- _ => destruct c; [discriminate|]; inversion H; subst; clear H end.
       exists t. repeat split; auto.
-      + rewrite Hlog. cbn [ibal with_log with_bal mint]. peel. unfold ACoin, AErc.
+      + rewrite Hlog. cbn [ibal with_log with_bal with_acct mint]. peel. unfold ACoin, AErc.
         repeat match goal with |- context [?a =? ?b] => destruct (Z.eqb_spec a b) end; cbn [andb]; lia.
-      + intros k a Hne. rewrite Hlog. cbn [ibal with_log with_bal mint]. peel. unfold ACoin, AErc in *.
+      + intros k a Hne. rewrite Hlog. cbn [ibal with_log with_bal with_acct mint]. peel. unfold ACoin, AErc in *.
         repeat match goal with |- context [?a =? ?b] => destruct (Z.eqb_spec a b) end;
           cbn [andb]; try lia; exfalso; apply Hne; congruence.
   Qed.
@@ -230,8 +230,8 @@ Section Recv.
     pose proof (memo_step_receiver p c1 c2 Eh Hmu) as Hlog.
     unfold pay in Et. destruct (_ <? _); [discriminate|]. inversion Et; subst c1. clear Et.
     split; [exact Hamt|]. split.
-    - rewrite Hlog. cbn [ibal with_bal]. peel. rewrite !Z.eqb_refl. cbn [andb]. lia.
-    - intros k a Hne. rewrite Hlog. cbn [ibal with_bal]. peel. unfold AFx in *.
+    - rewrite Hlog. cbn [ibal with_bal with_acct]. peel. rewrite !Z.eqb_refl. cbn [andb]. lia.
+    - intros k a Hne. rewrite Hlog. cbn [ibal with_bal with_acct]. peel. unfold AFx in *.
       repeat match goal with |- context [?a =? ?b] => destruct (Z.eqb_spec a b) end;
         cbn [andb]; try lia; exfalso; apply Hne; congruence.
   Qed.
@@ -443,8 +443,17 @@ Section Runs.
     ilog s' = ilog s0 ++ [EvSendEvm chan (nextseq s0 chan)].
   Proof. intros (R&N&L&_). cbn. rewrite R, N, L. repeat split. Qed.
 
+  Lemma voucher_out_proj s c a t n s' : voucher_out s c a t n = Ok s' -> same_proj s s'.
+  Proof. unfold voucher_out. destruct (c =? t); [apply burn_proj|apply pay_proj]. Qed.
+  Lemma voucher_back_proj s c a t n s' : voucher_back s c a t n = Ok s' -> same_proj s s'.
+  Proof.
+    unfold voucher_back. destruct (c =? t); [|apply pay_proj].
+    intros H. eapply same_proj_trans; [apply mint_proj|eapply pay_proj; eassumption].
+  Qed.
+
   Ltac chain :=
     repeat match goal with
+           | H : voucher_out _ _ _ _ _ = Ok _ |- _ => apply voucher_out_proj in H
            | H : bind _ _ = Ok _ |- _ => apply bind_ok in H; let x := fresh "x" in let H1 := fresh "P" in let H2 := fresh "Q" in destruct H as (x & H1 & H2)
            | H : pay _ _ _ _ _ _ = Ok _ |- _ => apply pay_proj in H
            | H : burn _ _ _ _ _ = Ok _ |- _ => apply burn_proj in H
@@ -486,7 +495,8 @@ Section Runs.
     refund pk s = Ok s' ->
     (in_rel (rel s) (p_chan pk) (p_seq pk) = false /\ same_proj s s') \/
     (exists t, In (p_chan pk, p_seq pk) (rel s) /\ rel s' = del_rel (rel s) (p_chan pk) (p_seq pk) /\
-               nextseq s' = nextseq s /\ ilog s' = ilog s ++ [EvReconv (p_chan pk) (p_seq pk) (p_sender pk) t (p_amt pk)]).
+               nextseq s' = nextseq s /\ ilog s' = ilog s ++ [EvReconv (p_chan pk) (p_seq pk) (p_sender pk) t (p_amt pk)] /\
+               commits s' = commits s).
   Proof.
     unfold refund. destruct (p_denom pk) as [|t|t| |t]; try discriminate; intros H.
     - apply bind_ok in H. destruct H as (s1 & P1 & H1). apply pay_proj in P1.
@@ -500,13 +510,13 @@ Section Runs.
       destruct SP as (R&N&L&C&S&PO&HA). rewrite R in H2.
       destruct (in_rel (rel s) _ _) eqn:E.
       + apply bind_ok in H2. destruct H2 as (s3 & P3 & H3). apply convert_coin_proj in P3.
-        destruct P3 as (R3&N3&L3&_). inversion H3; subst s'. cbn [rel nextseq ilog with_rel with_log] in *.
+        destruct P3 as (R3&N3&L3&C3&_). inversion H3; subst s'. cbn [rel nextseq ilog commits with_rel with_log] in *.
         right. exists t. split; [apply in_rel_In; exact E|]. repeat split; congruence.
       + inversion H2; subst. left. split; [reflexivity|]. repeat split; assumption.
     - destruct (pair_on s VoucherMeta).
       { apply bind_ok in H. destruct H as (s1 & P1 & H1). apply bind_ok in H1. destruct H1 as (s2 & P2 & H2).
         assert (SP : same_proj s s2).
-        { eapply same_proj_trans; [apply mint_proj|]. eapply same_proj_trans; [eapply pay_proj; eassumption|].
+        { eapply same_proj_trans; [eapply voucher_back_proj; eassumption|].
           eapply voucher_to_self_proj; eassumption. }
         destruct SP as (R&N&L&C&S&PO&HA). rewrite R in H2.
         destruct (in_rel (rel s) _ _) eqn:E; [discriminate|]. inversion H2; subst. left. split; [reflexivity|].
@@ -514,27 +524,27 @@ Section Runs.
       apply bind_ok in H. destruct H as (s1 & P1 & H1). apply bind_ok in H1. destruct H1 as (s2 & P2 & H2).
       apply bind_ok in H2. destruct H2 as (s3 & P3 & H3).
       assert (SP : same_proj s s3).
-      { eapply same_proj_trans; [apply mint_proj|]. eapply same_proj_trans; [eapply pay_proj; eassumption|].
+      { eapply same_proj_trans; [eapply voucher_back_proj; eassumption|].
         eapply same_proj_trans; [eapply pay_proj; eassumption|].
         eapply same_proj_trans; [apply mint_proj|]. eapply pay_proj; eassumption. }
       destruct SP as (R&N&L&C&S&PO&HA). rewrite R in H3.
       destruct (in_rel (rel s) _ _) eqn:E.
       + apply bind_ok in H3. destruct H3 as (s4 & P4 & H4). apply convert_coin_proj in P4.
-        destruct P4 as (R4&N4&L4&_). inversion H4; subst s'. cbn [rel nextseq ilog with_rel with_log] in *.
+        destruct P4 as (R4&N4&L4&C4&_). inversion H4; subst s'. cbn [rel nextseq ilog commits with_rel with_log] in *.
         right. exists t. split; [apply in_rel_In; exact E|]. repeat split; congruence.
       + inversion H3; subst. left. split; [reflexivity|]. repeat split; assumption.
     - apply bind_ok in H. destruct H as (s1 & P1 & H1). apply pay_proj in P1.
       destruct P1 as (R&N&L&C&S&PO&HA). rewrite R in H1.
       destruct (in_rel (rel s) _ _) eqn:E.
       + apply bind_ok in H1. destruct H1 as (s2 & P2 & H2). apply convert_coin_proj in P2.
-        destruct P2 as (R2&N2&L2&_). inversion H2; subst s'. cbn [rel nextseq ilog with_rel with_log] in *.
+        destruct P2 as (R2&N2&L2&C2&_). inversion H2; subst s'. cbn [rel nextseq ilog commits with_rel with_log] in *.
         right. exists t. split; [apply in_rel_In; exact E|]. repeat split; congruence.
       + inversion H1; subst. left. split; [reflexivity|]. repeat split; assumption.
   Qed.
 
   Lemma refund_eff pk s s' : refund pk s = Ok s' -> eff s s'.
   Proof.
-    intros H. destruct (refund_shape _ _ _ H) as [[_ SP]|(t & Hin & R & N & L)].
+    intros H. destruct (refund_shape _ _ _ H) as [[_ SP]|(t & Hin & R & N & L & _)].
     - apply eff_same_proj. exact SP.
     - eapply EffReconv; eauto. intros c'. rewrite N. reflexivity.
   Qed.
@@ -761,6 +771,375 @@ Section Runs.
 End Runs.
 
 (* ------------------------------------------------------------------------------------------ *)
+(** * the refund clause, exactly: to its sender, the amount sent, as ERC-20, once — over histories *)
+
+Lemma pay_ok s from to kind t amt :
+  amt <= ibal s (from, kind, t) ->
+  pay s from to kind t amt = Ok (with_acct (with_bal s (ladd (ladd (ibal s) (from, kind, t) (- amt)) (to, kind, t) amt)) to).
+Proof. intros H. unfold pay. destruct (Z.ltb_spec (ibal s (from, kind, t)) amt); [lia|reflexivity]. Qed.
+
+Ltac peel2 :=
+  repeat first [ rewrite ladd_same_holder
+               | rewrite ladd_other_holder by (unfold ModTransfer, ModErc20, Supply, Escrow; lia) ].
+Ltac kinds := unfold ACoin, AVoucher, AErc, AFx in *; cbn [Z.eqb Pos.eqb andb]; rewrite ?Z.eqb_refl; cbn [andb].
+Ltac bal := cbn [ibal mint with_bal with_acct with_rel with_log rel]; peel2; kinds; try lia.
+
+Lemma alias_refund_exact pk s t :
+  p_denom pk = DAlias t -> in_rel (rel s) (p_chan pk) (p_seq pk) = true ->
+  pair_on s VoucherMeta = false -> pair_on s Erc20Switch && pair_on s t = true ->
+  0 < p_amt pk -> 0 <= p_sender pk -> 0 <= p_chan pk ->
+  0 <= ibal s (p_sender pk, AVoucher, t) -> 0 <= ibal s (p_sender pk, ACoin, t) ->
+  0 <= ibal s (ModTransfer, AVoucher, t) -> 0 <= ibal s (ModTransfer, ACoin, t) ->
+  (p_chan pk = t \/ p_amt pk <= ibal s (Escrow (p_chan pk), AVoucher, t)) ->
+  exists s', refund pk s = Ok s' /\
+    ibal s' (p_sender pk, AErc, t) = ibal s (p_sender pk, AErc, t) + p_amt pk /\
+    (forall k a, (k, a) <> (AErc, t) -> ibal s' (p_sender pk, k, a) = ibal s (p_sender pk, k, a)) /\
+    rel s' = del_rel (rel s) (p_chan pk) (p_seq pk) /\ commits s' = commits s /\
+    ilog s' = ilog s ++ [EvReconv (p_chan pk) (p_seq pk) (p_sender pk) t (p_amt pk)].
+Proof.
+  intros Hd Hrel Hm Hon Hamt Hwho Hc Hv Hcn Hmv Hmc Hback.
+  unfold refund. rewrite Hd, Hm. unfold voucher_back.
+  set (who := p_sender pk) in *. set (amt := p_amt pk) in *. set (c := p_chan pk) in *. set (q := p_seq pk) in *.
+  destruct (Z.eqb_spec c t) as [Ect|Ect].
+  - rewrite pay_ok by bal. cbn [bind].
+    rewrite pay_ok by bal. cbn [bind].
+    rewrite pay_ok by bal. cbn [bind].
+    cbn [rel with_bal with_acct mint]. rewrite Hrel.
+    unfold convert_coin. cbn [pair_on with_rel with_bal with_acct mint]. rewrite Hon. cbn [negb].
+    rewrite pay_ok by bal. cbn [bind].
+    eexists. split; [reflexivity|]. repeat split.
+    + bal.
+    + intros k a Hne. cbn [ibal mint with_bal with_acct with_rel with_log]. peel2. unfold ACoin, AVoucher, AErc in *.
+      repeat match goal with |- context [?x =? ?y] => destruct (Z.eqb_spec x y) end; cbn [andb]; try lia; exfalso; apply Hne; congruence.
+  - destruct Hback as [E|Hesc]; [contradiction|].
+    rewrite pay_ok by bal. cbn [bind].
+    rewrite pay_ok by bal. cbn [bind].
+    rewrite pay_ok by bal. cbn [bind].
+    cbn [rel with_bal with_acct mint]. rewrite Hrel.
+    unfold convert_coin. cbn [pair_on with_rel with_bal with_acct mint]. rewrite Hon. cbn [negb].
+    rewrite pay_ok by bal. cbn [bind].
+    eexists. split; [reflexivity|]. repeat split.
+    + bal.
+    + intros k a Hne. cbn [ibal mint with_bal with_acct with_rel with_log]. peel2. unfold ACoin, AVoucher, AErc in *.
+      repeat match goal with |- context [?x =? ?y] => destruct (Z.eqb_spec x y) end; cbn [andb]; try lia; exfalso; apply Hne; congruence.
+Qed.
+
+Section Exact.
+  Variable isender : Z -> Z -> Z.
+
+  Lemma memo_step_commits p s1 c2 : memo_step isender p s1 = Ok c2 -> commits c2 = commits s1.
+  Proof.
+    unfold memo_step. intros H.
+    destruct (ip_memo p) as [| | |f v]; try (inversion H; subst; reflexivity); try discriminate.
+    destruct (negb (has_acct s1 _)); [discriminate|]. destruct (_ <? _); [discriminate|].
+    destruct f; inversion H; subst. reflexivity.
+  Qed.
+
+  Lemma hook_recv_commits p s s' : hook_recv isender p s = Ok s' -> commits s' = commits s.
+  Proof.
+    unfold hook_recv. intros H. apply bind_ok in H. destruct H as (s1 & Hconv & Hmemo).
+    rewrite (memo_step_commits _ _ _ Hmemo).
+    destruct (ip_denom p) as [|t|t| |t].
+    - inversion Hconv; reflexivity.
+    - destruct (negb (ip_hex p)); [discriminate|]. cbn [voucher_asset] in Hconv.
+      apply bind_ok in Hconv. destruct Hconv as (v1 & Hv & Hc). apply bind_ok in Hc. destruct Hc as (v2 & Hcc & Hl).
+      inversion Hl; subst s1. cbn [commits with_log].
+      pose proof (voucher_to_self_proj _ _ _ _ _ _ Hv) as (_&_&_&C1&_).
+      pose proof (convert_coin_proj _ _ _ _ _ Hcc) as (_&_&_&C2&_). congruence.
+    - destruct (negb (ip_hex p)); [discriminate|]. cbn [voucher_asset] in Hconv.
+      apply bind_ok in Hconv. destruct Hconv as (v1 & _ & Hc). discriminate.
+    - destruct (negb (ip_hex p)); [discriminate|]. cbn [voucher_asset] in Hconv.
+      apply bind_ok in Hconv. destruct Hconv as (v1 & _ & Hc). discriminate.
+    - destruct (negb (ip_hex p)); [discriminate|].
+      apply bind_ok in Hconv. destruct Hconv as (v2 & Hcc & Hl). inversion Hl; subst s1. cbn [commits with_log].
+      pose proof (convert_coin_proj _ _ _ _ _ Hcc) as (_&_&_&C2&_). exact C2.
+  Qed.
+
+  Lemma recv_commits p s : commits (fst (recv isender p s)) = commits s.
+  Proof.
+    rewrite recv_unfold. destruct (negb _); [reflexivity|].
+    destruct (transfer_recv p s) as [c1|c1] eqn:Et; [|reflexivity].
+    destruct (hook_recv isender p c1) as [c2|c2] eqn:Eh; [|reflexivity]. cbn [fst].
+    rewrite (hook_recv_commits _ _ _ Eh). pose proof (transfer_recv_proj _ _ _ Et) as (_&_&_&C&_). exact C.
+  Qed.
+
+  Lemma find_del_pk l c q : find_pk (del_pk l c q) c q = None.
+  Proof.
+    unfold find_pk, del_pk. destruct (find _ (filter _ _)) eqn:E; [|reflexivity].
+    apply find_some in E. destruct E as [Hin Hp]. apply filter_In in Hin. destruct Hin as [_ Hn]. rewrite Hp in Hn. discriminate.
+  Qed.
+
+  Lemma find_del_pk_other l c q c' q' : (c', q') <> (c, q) -> find_pk (del_pk l c' q') c q = find_pk l c q.
+  Proof.
+    intros Hne. unfold find_pk, del_pk. induction l as [|x l IH]; [reflexivity|]. cbn [filter find].
+    destruct (pk_is c' q' x) eqn:E1; cbn [negb].
+    - destruct (pk_is c q x) eqn:E2; [|exact IH]. exfalso. apply Hne. unfold pk_is in *.
+      apply andb_true_iff in E1, E2. destruct E1 as [A1 A2], E2 as [B1 B2]. apply Z.eqb_eq in A1, A2, B1, B2. congruence.
+    - cbn [find]. destruct (pk_is c q x); [reflexivity|exact IH].
+  Qed.
+
+  Definition inflight (s : ist) (c q : Z) (pk : packet) : Prop :=
+    find_pk (commits s) c q = Some pk /\ in_rel (rel s) c q = true /\ q < nextseq s c.
+
+  (* operations that are not a delivery of (c, q) itself — neither by the core nor replayed — and not a genesis export / import *)
+  Definition quiet (c q : Z) (o : op) : bool :=
+    match o with
+    | Ack c' q' _ | Timeout c' q' | AckRaw c' q' _ | TimeoutRaw c' q' => negb ((c' =? c) && (q' =? q))
+    | ExportImport => false
+    | _ => true
+    end.
+
+  Lemma send_evm_shape c a d n s s' :
+    send_from_evm c a d n s = Ok s' -> exists x evm, same_proj s x /\ s' = new_packet x c a d n evm.
+  Proof.
+    unfold send_from_evm. destruct (_ <=? _); [discriminate|].
+    destruct d as [|t|t| |t]; try discriminate.
+    - intros H. apply bind_ok in H. destruct H as (x & P & Q). inversion Q; subst. exists x, false. split; [eapply pay_proj; eauto|reflexivity].
+    - destruct (negb _); [discriminate|]. intros H.
+      apply bind_ok in H. destruct H as (x1 & P1 & H). apply bind_ok in H. destruct H as (x2 & P2 & H).
+      apply bind_ok in H. destruct H as (x3 & P3 & H). apply bind_ok in H. destruct H as (x4 & P4 & H).
+      apply bind_ok in H. destruct H as (x5 & P5 & H). inversion H; subst. exists x5, true. split; [|reflexivity].
+      eapply same_proj_trans; [eapply burn_proj; eauto|]. eapply same_proj_trans; [eapply pay_proj; eauto|].
+      eapply same_proj_trans; [eapply burn_proj; eauto|]. eapply same_proj_trans; [eapply pay_proj; eauto|].
+      eapply voucher_out_proj; eauto.
+  Qed.
+
+  Lemma send_plain_shape c a d n s s' :
+    send_plain c a d n s = Ok s' -> exists x, same_proj s x /\ s' = new_packet x c a d n false.
+  Proof.
+    unfold send_plain. destruct (_ <=? _); [discriminate|].
+    destruct d as [|t|t| |t]; try discriminate.
+    - intros H. apply bind_ok in H. destruct H as (x & P & Q). inversion Q; subst. exists x. split; [eapply pay_proj; eauto|reflexivity].
+    - intros H. apply bind_ok in H. destruct H as (x & P & Q). inversion Q; subst. exists x. split; [eapply burn_proj; eauto|reflexivity].
+    - destruct (negb _); [discriminate|]. intros H.
+      apply bind_ok in H. destruct H as (x1 & P1 & H). apply bind_ok in H. destruct H as (x2 & P2 & H).
+      apply bind_ok in H. destruct H as (x3 & P3 & H). inversion H; subst. exists x3. split; [|reflexivity].
+      eapply same_proj_trans; [eapply burn_proj; eauto|]. eapply same_proj_trans; [eapply pay_proj; eauto|].
+      eapply voucher_out_proj; eauto.
+    - intros H. apply bind_ok in H. destruct H as (x & P & Q). inversion Q; subst. exists x. split; [eapply pay_proj; eauto|reflexivity].
+  Qed.
+
+  Lemma inflight_new_packet s x c q pk chan a d n evm :
+    same_proj s x -> inflight s c q pk -> inflight (new_packet x chan a d n evm) c q pk.
+  Proof.
+    intros (R&N&L&C&S&PO&CI) (F & Hr & Hq). unfold inflight, new_packet. cbn [commits rel nextseq].
+    rewrite R, N, C. repeat split.
+    - unfold find_pk. cbn [find]. unfold pk_is at 1. cbn [p_chan p_seq].
+      destruct (Z.eqb_spec chan c); [subst; destruct (Z.eqb_spec (nextseq s c) q); [lia|]|]; cbn [andb]; exact F.
+    - destruct evm; [|exact Hr]. rewrite in_rel_cons, Hr. apply orb_true_r.
+    - destruct (Z.eqb_spec c chan); [subst; lia|exact Hq].
+  Qed.
+
+  Lemma cb_frame pk' (cb : packet -> ist -> result ist) x x' :
+    (cb = on_timeout \/ exists ok, cb = fun pk => on_ack pk ok) ->
+    cb pk' x = Ok x' ->
+    commits x' = commits x /\ nextseq x' = nextseq x /\
+    (rel x' = rel x \/ rel x' = del_rel (rel x) (p_chan pk') (p_seq pk')).
+  Proof.
+    intros Hcb H.
+    assert (Href : refund pk' x = Ok x' -> commits x' = commits x /\ nextseq x' = nextseq x /\
+                   (rel x' = rel x \/ rel x' = del_rel (rel x) (p_chan pk') (p_seq pk'))).
+    { intros Hr. destruct (refund_shape _ _ _ Hr) as [[_ (R&N&_&C&_)]|(t & _ & R & N & _ & C)]; auto. }
+    destruct Hcb as [->|[ok ->]]; [apply Href; exact H|].
+    unfold on_ack in H. destruct ok; [|apply Href; exact H]. inversion H; subst. cbn. auto.
+  Qed.
+
+  Lemma inflight_deliver_other (cb : packet -> ist -> result ist) c q pk c' q' s :
+    (cb = on_timeout \/ exists ok, cb = fun pk => on_ack pk ok) ->
+    (c', q') <> (c, q) -> inflight s c q pk ->
+    inflight (core_deliver cb c' q' s) c q pk /\ inflight (raw_deliver cb c' q' s) c q pk.
+  Proof.
+    intros Hcb Hne (F & Hr & Hq). split.
+    - unfold core_deliver. destruct (find_pk (commits s) c' q') as [pk'|] eqn:F'; [|repeat split; assumption].
+      destruct (find_pk_spec _ _ _ _ F') as [Hc' Hq'].
+      unfold tx, branch, commit, discard.
+      destruct (cb pk' (with_commits s (del_pk (commits s) c' q'))) as [x'|x'] eqn:E; cbn [fst]; [|repeat split; assumption].
+      destruct (cb_frame _ _ _ _ Hcb E) as (C & N & R). cbn [commits nextseq rel with_commits] in C, N, R.
+      unfold inflight. rewrite C, N. split; [rewrite find_del_pk_other; assumption|]. split; [|exact Hq].
+      destruct R as [->| ->]; [exact Hr|]. rewrite Hc', Hq'. rewrite in_rel_del_other; [exact Hr|congruence].
+    - unfold raw_deliver. destruct (find_pk (sent s) c' q') as [pk'|] eqn:F'; [|repeat split; assumption].
+      destruct (find_pk_spec _ _ _ _ F') as [Hc' Hq'].
+      unfold tx, branch, commit, discard.
+      destruct (cb pk' s) as [x'|x'] eqn:E; cbn [fst]; [|repeat split; assumption].
+      destruct (cb_frame _ _ _ _ Hcb E) as (C & N & R).
+      unfold inflight. rewrite C, N. split; [exact F|]. split; [|exact Hq].
+      destruct R as [->| ->]; [exact Hr|]. rewrite Hc', Hq'. rewrite in_rel_del_other; [exact Hr|congruence].
+  Qed.
+
+  Lemma quiet_step s o c q pk : inflight s c q pk -> quiet c q o = true -> inflight (step isender s o) c q pk.
+  Proof.
+    intros I Hq.
+    assert (Hne : forall c' q', negb ((c' =? c) && (q' =? q)) = true -> (c', q') <> (c, q)).
+    { intros c' q' H E. inversion E; subst. rewrite !Z.eqb_refl in H. discriminate. }
+    destruct o as [ch a d n|ch a d n|p|c' q' ok|c' q'|c' q' ok|c' q'|t|]; cbn [step quiet] in *.
+    - unfold tx, branch, commit, discard. destruct (send_from_evm ch a d n s) as [s'|s'] eqn:E; cbn [fst]; [|exact I].
+      destruct (send_evm_shape _ _ _ _ _ _ E) as (x & evm & SP & ->). apply (inflight_new_packet s); assumption.
+    - unfold tx, branch, commit, discard. destruct (send_plain ch a d n s) as [s'|s'] eqn:E; cbn [fst]; [|exact I].
+      destruct (send_plain_shape _ _ _ _ _ _ E) as (x & SP & ->). apply (inflight_new_packet s); assumption.
+    - destruct I as (F & Hr & Hs). unfold inflight. rewrite recv_commits.
+      pose proof (recv_eff isender p s) as E.
+      assert (R : rel (fst (recv isender p s)) = rel s /\ nextseq (fst (recv isender p s)) = nextseq s).
+      { rewrite recv_unfold. destruct (negb _); [auto|].
+        destruct (transfer_recv p s) as [c1|c1] eqn:Et; [|auto].
+        destruct (hook_recv isender p c1) as [c2|c2] eqn:Eh; [|auto]. cbn [fst].
+        pose proof (transfer_recv_proj _ _ _ Et) as (R1&N1&_).
+        destruct (hook_ok_shape _ _ _ _ Eh) as (R2 & N2 & _). split; congruence. }
+      destruct R as [-> ->]. repeat split; assumption.
+    - apply (inflight_deliver_other (fun pk => on_ack pk ok)); [right; eauto|apply Hne; exact Hq|exact I].
+    - apply (inflight_deliver_other on_timeout); [left; reflexivity|apply Hne; exact Hq|exact I].
+    - apply (inflight_deliver_other (fun pk => on_ack pk ok)); [right; eauto|apply Hne; exact Hq|exact I].
+    - apply (inflight_deliver_other on_timeout); [left; reflexivity|apply Hne; exact Hq|exact I].
+    - exact I.
+    - discriminate.
+  Qed.
+
+  Lemma quiet_run ops : forall s c q pk, inflight s c q pk -> forallb (quiet c q) ops = true -> inflight (run isender ops s) c q pk.
+  Proof.
+    induction ops as [|o r IH]; intros s c q pk I H; [exact I|]. cbn [forallb] in H. apply andb_true_iff in H. destruct H as [H1 H2].
+    cbn [run fold_left]. apply IH; [apply quiet_step; assumption|exact H2].
+  Qed.
+
+  Lemma send_evm_inflight c a t n s s' :
+    send_from_evm c a (DAlias t) n s = Ok s' -> 0 <= a -> 0 <= c ->
+    let pk := {| p_chan := c; p_seq := nextseq s c; p_sender := a; p_denom := DAlias t; p_amt := n |} in
+    inflight s' c (nextseq s c) pk /\ 0 < n /\ ibal s' (a, AErc, t) = ibal s (a, AErc, t) - n.
+  Proof.
+    intros E Ha Hc0. cbn zeta.
+    unfold send_from_evm in E. destruct (Z.leb_spec n 0) as [|Hn]; [discriminate|].
+    destruct (negb _); [discriminate|].
+    apply bind_ok in E. destruct E as (x1 & P1 & E). apply bind_ok in E. destruct E as (x2 & P2 & E).
+    apply bind_ok in E. destruct E as (x3 & P3 & E). apply bind_ok in E. destruct E as (x4 & P4 & E).
+    apply bind_ok in E. destruct E as (x5 & P5 & E). inversion E; subst s'. clear E.
+    assert (SP : same_proj s x5).
+    { eapply same_proj_trans; [eapply burn_proj; eauto|]. eapply same_proj_trans; [eapply pay_proj; eauto|].
+      eapply same_proj_trans; [eapply burn_proj; eauto|]. eapply same_proj_trans; [eapply pay_proj; eauto|].
+      eapply voucher_out_proj; eauto. }
+    destruct SP as (R&N&L&C&S&PO&CI).
+    split; [|split; [exact Hn|]].
+    - unfold inflight, new_packet. cbn [commits rel nextseq]. rewrite N. repeat split.
+      + unfold find_pk. cbn [find]. unfold pk_is. cbn [p_chan p_seq]. rewrite !Z.eqb_refl. reflexivity.
+      + rewrite in_rel_cons, !Z.eqb_refl. reflexivity.
+      + rewrite Z.eqb_refl. lia.
+    - unfold new_packet. cbn [ibal].
+      unfold voucher_out in P5. destruct (c =? t); unfold pay, burn in *;
+        repeat match goal with H : (if ?c then _ else _) = Ok _ |- _ => destruct c; [discriminate|]; inversion H; subst; clear H end;
+        cbn [ibal with_bal with_acct]; peel2; unfold ACoin, AVoucher, AErc; cbn [Z.eqb Pos.eqb andb]; rewrite ?Z.eqb_refl; cbn [andb]; lia.
+  Qed.
+
+  Definition refund_guards (s : ist) (a c t n : Z) : Prop :=
+    pair_on s VoucherMeta = false /\ pair_on s Erc20Switch && pair_on s t = true /\
+    0 <= ibal s (a, AVoucher, t) /\ 0 <= ibal s (a, ACoin, t) /\
+    0 <= ibal s (ModTransfer, AVoucher, t) /\ 0 <= ibal s (ModTransfer, ACoin, t) /\
+    (c = t \/ n <= ibal s (Escrow c, AVoucher, t)).
+
+  Lemma delivery_exact s c q a t n :
+    let pk := {| p_chan := c; p_seq := q; p_sender := a; p_denom := DAlias t; p_amt := n |} in
+    inflight s c q pk -> 0 < n -> 0 <= a -> 0 <= c -> refund_guards s a c t n ->
+    forall o, o = Timeout c q \/ o = Ack c q false ->
+    let s' := step isender s o in
+    ibal s' (a, AErc, t) = ibal s (a, AErc, t) + n /\
+    (forall k x, (k, x) <> (AErc, t) -> ibal s' (a, k, x) = ibal s (a, k, x)) /\
+    in_rel (rel s') c q = false /\ find_pk (commits s') c q = None /\
+    ilog s' = ilog s ++ [EvReconv c q a t n].
+  Proof.
+    cbn zeta. intros (F & Hr & Hq) Hn Ha Hc (G1 & G2 & G3 & G4 & G5 & G6 & G7) o Ho.
+    set (pk := {| p_chan := c; p_seq := q; p_sender := a; p_denom := DAlias t; p_amt := n |}) in *.
+    assert (E : step isender s o = fst (tx (fun x => refund pk (with_commits x (del_pk (commits x) c q))) s)).
+    { destruct Ho as [-> | ->]; cbn [step]; unfold core_deliver; rewrite F; reflexivity. }
+    rewrite E. unfold tx, branch, commit, discard.
+    destruct (alias_refund_exact pk (with_commits s (del_pk (commits s) c q)) t) as (s' & Hs' & B1 & B2 & R & C & L);
+      try reflexivity; try assumption.
+    rewrite Hs'. cbn [fst]. cbn [ibal rel commits ilog with_commits p_sender p_amt p_chan p_seq pk] in *.
+    split; [exact B1|]. split; [exact B2|]. split; [rewrite R; apply in_rel_del|]. split; [rewrite C; apply find_del_pk|exact L].
+  Qed.
+
+  Lemma eff_log_app s s' : eff isender s s' -> exists evs, ilog s' = ilog s ++ evs.
+  Proof.
+    intros E. destruct E as [evs R N L B|c R N L|c R N L|c q who t n I R N L|c q R N L|R N L]; rewrite L; eauto;
+      exists []; rewrite app_nil_r; reflexivity.
+  Qed.
+
+  Lemma run_log_app ops : forall s, exists evs, ilog (run isender ops s) = ilog s ++ evs.
+  Proof.
+    induction ops as [|o r IH]; intros s; [exists []; rewrite app_nil_r; reflexivity|]. cbn [run fold_left].
+    destruct (IH (step isender s o)) as (e2 & E2). destruct (eff_log_app _ _ (step_eff isender s o)) as (e1 & E1).
+    exists (e1 ++ e2). fold (run isender r (step isender s o)). rewrite E2, E1, app_assoc. reflexivity.
+  Qed.
+
+  Lemma run_app a b s : run isender (a ++ b) s = run isender b (run isender a s).
+  Proof. unfold run. apply fold_left_app. Qed.
+
+  Lemma run_cons o l s : run isender (o :: l) s = run isender l (step isender s o).
+  Proof. reflexivity. Qed.
+
+  (* the refund clause over histories *)
+  Lemma refund_exact_over_histories s0 ops1 c a t n s2 ops2 o ops3 :
+    inv s0 ->
+    let s1 := run isender ops1 s0 in
+    let q := nextseq s1 c in
+    send_from_evm c a (DAlias t) n s1 = Ok s2 -> 0 <= a -> 0 <= c ->
+    forallb (quiet c q) ops2 = true ->
+    let s3 := run isender ops2 s2 in
+    refund_guards s3 a c t n ->
+    o = Timeout c q \/ o = Ack c q false ->
+    let s4 := step isender s3 o in
+    let s5 := run isender ops3 s4 in
+    ibal s2 (a, AErc, t) = ibal s1 (a, AErc, t) - n /\
+    ibal s4 (a, AErc, t) = ibal s3 (a, AErc, t) + n /\
+    (forall k x, (k, x) <> (AErc, t) -> ibal s4 (a, k, x) = ibal s3 (a, k, x)) /\
+    in_rel (rel s4) c q = false /\ find_pk (commits s4) c q = None /\
+    count (is_reconv c q) (ilog s5) = 1%nat /\ in_rel (rel s5) c q = false.
+  Proof.
+    intros Hinv. cbn zeta. intros Hsend Ha Hc Hquiet G Ho.
+    destruct (send_evm_inflight _ _ _ _ _ _ Hsend Ha Hc) as (I2 & Hn & Hbal).
+    pose proof (quiet_run ops2 _ _ _ _ I2 Hquiet) as I3.
+    destruct (delivery_exact _ _ _ _ _ _ I3 Hn Ha Hc G o Ho) as (B1 & B2 & R4 & C4 & L4).
+    split; [exact Hbal|]. split; [exact B1|]. split; [exact B2|]. split; [exact R4|]. split; [exact C4|].
+    set (q := nextseq (run isender ops1 s0) c) in *.
+    set (s4 := step isender (run isender ops2 s2) o) in *.
+    assert (Hall : run isender ops3 s4 = run isender (ops1 ++ SendFromEvm c a (DAlias t) n :: ops2 ++ o :: ops3) s0).
+    { rewrite run_app, run_cons, run_app, run_cons. unfold s4. f_equal. f_equal. f_equal.
+      cbn [step]. unfold tx, branch, commit. rewrite Hsend. reflexivity. }
+    pose proof (inv_run isender (ops1 ++ SendFromEvm c a (DAlias t) n :: ops2 ++ o :: ops3) s0 Hinv) as Hi. rewrite <- Hall in Hi. clear Hall.
+    destruct Hi as (_ & _ & I3' & _ & I5). specialize (I3' c q). specialize (I5 c q).
+    destruct (run_log_app ops3 s4) as (evs & Ev).
+    assert (Hge : (1 <= count (is_reconv c q) (ilog (run isender ops3 s4)))%nat).
+    { rewrite Ev, L4, !count_app. unfold count at 2. cbn [filter is_reconv]. rewrite !Z.eqb_refl. cbn [andb length]. lia. }
+    destruct (in_rel (rel (run isender ops3 s4)) c q); split; try reflexivity; lia.
+  Qed.
+
+  (* what a delivery by the core does, without an escape clause: nothing without a commitment; a success acknowledgement always
+     goes through; a failure acknowledgement and a timeout are the same callback — the refund — and go through exactly when the
+     refund does; when it is refused (conversion switched off, …) the transaction fails, NOTHING changes and the delivery can
+     be repeated.  Whenever a delivery goes through, record and commitment of (channel, sequence) are gone. *)
+  Lemma delivery_outcomes c q s :
+    let s0 := core_deliver (fun pk => on_ack pk true) c q s in
+    let s1 := core_deliver (fun pk => on_ack pk false) c q s in
+    let s2 := core_deliver on_timeout c q s in
+    match find_pk (commits s) c q with
+    | None => s0 = s /\ s1 = s /\ s2 = s
+    | Some pk =>
+        (in_rel (rel s0) c q = false /\ find_pk (commits s0) c q = None) /\
+        s1 = s2 /\
+        match refund pk (with_commits s (del_pk (commits s) c q)) with
+        | Ok x => s2 = x /\ in_rel (rel s2) c q = false /\ find_pk (commits s2) c q = None
+        | Err _ => s2 = s
+        end
+    end.
+  Proof.
+    cbn zeta. unfold core_deliver. destruct (find_pk (commits s) c q) as [pk|] eqn:F; [|repeat split].
+    destruct (find_pk_spec _ _ _ _ F) as [Hc Hq].
+    unfold tx, branch, commit, discard, on_ack, on_timeout. split; [|split; [reflexivity|]].
+    - cbn [fst rel commits with_rel with_commits]. rewrite <- Hc, <- Hq at 1. split; [rewrite Hc, Hq; apply in_rel_del|apply find_del_pk].
+    - destruct (refund pk (with_commits s (del_pk (commits s) c q))) as [x|x] eqn:E; cbn [fst]; [|reflexivity].
+      split; [reflexivity|]. split.
+      + pose proof (refund_removes _ _ _ E) as H. rewrite Hc, Hq in H. exact H.
+      + destruct (refund_shape _ _ _ E) as [[_ (_&_&_&C&_)]|(t & _ & _ & _ & _ & C)]; rewrite C; cbn [commits with_commits]; apply find_del_pk.
+  Qed.
+End Exact.
+
+
+(* ------------------------------------------------------------------------------------------ *)
 (** * concrete runs: refutation of "record removed on success", non-vacuity *)
 
 Definition ex_isender (c sd : Z) : Z := 1000 + 100 * c + sd.
@@ -771,7 +1150,7 @@ Definition ex_bal : ledger := fun k =>
   if key_eqb k (Escrow 0, AFx, 0) then 50 else 0.
 Definition ex_state : ist :=
   {| ibal := ex_bal; rel := []; nextseq := fun _ => 1; commits := []; sent := []; pair_on := fun t => negb (t =? VoucherMeta);
-     has_acct := fun a => a =? 1700; ilog := [] |}.
+     has_acct := fun a => a =? 1700; chanid := fun c => 1000 + c; ilog := [] |}.
 
 (* regression, labelled: the success path BEFORE the fix (finding C19-1) left the record in place *)
 Lemma prefix_record_kept_on_success :
@@ -814,17 +1193,17 @@ Lemma refund_refused_while_disabled pk s t :
 Proof.
   intros Hd Hrel Hoff. unfold refund. rewrite Hd.
   destruct (pair_on s VoucherMeta).
-  { destruct (pay (mint s ModTransfer AVoucher t (p_amt pk)) ModTransfer (p_sender pk) AVoucher t (p_amt pk)) as [s1|s1] eqn:E1; cbn [bind]; [|eauto].
+  { destruct (voucher_back s (p_chan pk) (p_sender pk) t (p_amt pk)) as [s1|s1] eqn:E1; cbn [bind]; [|eauto].
     destruct (voucher_to_self (p_sender pk) AVoucher t (p_amt pk) s1) as [s2|s2] eqn:E2; cbn [bind]; [|eauto].
     assert (SP : same_proj s s2).
-    { eapply same_proj_trans; [apply mint_proj|]. eapply same_proj_trans; [eapply pay_proj; eassumption|].
+    { eapply same_proj_trans; [eapply voucher_back_proj; eassumption|].
       eapply voucher_to_self_proj; eassumption. }
     destruct SP as (R&_). rewrite R, Hrel. eauto. }
-  destruct (pay (mint s ModTransfer AVoucher t (p_amt pk)) ModTransfer (p_sender pk) AVoucher t (p_amt pk)) as [s1|s1] eqn:E1; cbn [bind]; [|eauto].
+  destruct (voucher_back s (p_chan pk) (p_sender pk) t (p_amt pk)) as [s1|s1] eqn:E1; cbn [bind]; [|eauto].
   destruct (pay s1 (p_sender pk) ModTransfer AVoucher t (p_amt pk)) as [s2|s2] eqn:E2; cbn [bind]; [|eauto].
   destruct (pay (mint s2 ModTransfer ACoin t (p_amt pk)) ModTransfer (p_sender pk) ACoin t (p_amt pk)) as [s3|s3] eqn:E3; cbn [bind]; [|eauto].
   assert (SP : same_proj s s3).
-  { eapply same_proj_trans; [apply mint_proj|]. eapply same_proj_trans; [eapply pay_proj; eassumption|].
+  { eapply same_proj_trans; [eapply voucher_back_proj; eassumption|].
     eapply same_proj_trans; [eapply pay_proj; eassumption|].
     eapply same_proj_trans; [apply mint_proj|]. eapply pay_proj; eassumption. }
   destruct SP as (R&_&_&_&_&PO&_). rewrite R, Hrel.
@@ -875,10 +1254,10 @@ Lemma alias_refund_refused_with_voucher_metadata pk s t :
   exists e, refund pk s = Err e.
 Proof.
   intros Hd Hrel Hm. unfold refund. rewrite Hd, Hm.
-  destruct (pay (mint s ModTransfer AVoucher t (p_amt pk)) ModTransfer (p_sender pk) AVoucher t (p_amt pk)) as [s1|s1] eqn:E1; cbn [bind]; [|eauto].
+  destruct (voucher_back s (p_chan pk) (p_sender pk) t (p_amt pk)) as [s1|s1] eqn:E1; cbn [bind]; [|eauto].
   destruct (voucher_to_self (p_sender pk) AVoucher t (p_amt pk) s1) as [s2|s2] eqn:E2; cbn [bind]; [|eauto].
   assert (SP : same_proj s s2).
-  { eapply same_proj_trans; [apply mint_proj|]. eapply same_proj_trans; [eapply pay_proj; eassumption|].
+  { eapply same_proj_trans; [eapply voucher_back_proj; eassumption|].
     eapply voucher_to_self_proj; eassumption. }
   destruct SP as (R&_). rewrite R, Hrel. eauto.
 Qed.
